@@ -137,7 +137,7 @@ func runOp(w *KVWorld, idx int, env Env) (res Result) {
 		}
 	}()
 	if op.Bucket != nil {
-		return op.Bucket(w.H[idx%len(w.H)], env)
+		return op.Bucket(w.HB, env)
 	}
 	return op.Run(w.Handle(idx), env)
 }
@@ -229,6 +229,9 @@ func ExpandKV(job KVJob) KVJobResult {
 			tr.Result = res.String()
 			tr.Violations = CheckKVStep(op, env, pre, post, res)
 			tr.Succ = CanonKV(post)
+			if cfg.Disk && res.Panic == "" {
+				tr.Violations = append(tr.Violations, w.ReopenDifferential(op.Name, post)...)
+			}
 			if job.Full {
 				tr.Pre, tr.Post, tr.Res = &pre, &post, &res
 			}
